@@ -3,6 +3,7 @@ import Pyunicorn.Lemmas.WhileSafe
 import Pyunicorn.Lemmas.Binary64
 import Pyunicorn.Generated.StructC20
 import Pyunicorn.Generated.StructC20Pyx
+import Pyunicorn.Generated.StructC20Py
 /-!
 # C20 — compiled kernels never touch memory outside their arrays
 
@@ -1191,5 +1192,120 @@ theorem narrow_counters_census :
     scalar_counters.all (fun c => decide (32 ≤ c.2.2.1)) = true
     ∧ buffer_counters.filter (fun c => decide (c.2.2.1 < 32)) = [] := by
   decide
+
+end Pyunicorn.Access
+
+
+/-! # Round 4: the size arguments as the calling Python methods pass them
+
+`Generated/StructC20Py.lean` is regenerated on every run from `mutual_info.py`, `rainfall.py`,
+`surrogates.py` and `resistive_network.py` (translate/c20_py.py): for each integer the Python method
+hands to a raw-pointer Cython wrapper, where it takes it from.  The C routines trust these integers,
+so they must describe *the array that is passed* — not the object (`self.N`), whose size a caller of
+`calculate_similarity_measure(anomaly[:, :k])` is free to differ from. -/
+namespace Pyunicorn.Access
+open Pyunicorn.Generated.StructC20Py
+
+def sizeKind (rows : List SizeRow) (cy : String) : Option (String × String × Nat × Nat) :=
+  (rows.find? (fun r => r.1 == cy)).map (·.2)
+
+/-- in the current source
+ * `_cython_calculate_mutual_information` passes as `N`, `n_samples` the two axes of the (transposed)
+   array it passes;
+ * `spearman_corr` passes as `m`, `tmax` the axes of the ranked anomaly and rejects a mask of
+   another shape;
+ * the two surrogate tests pass the axes of `original_data` and reject surrogates of another shape;
+ * the current-flow methods pass `self.N`, and the Cython wrappers compare it with both axes of both
+   arrays they are given. -/
+theorem wrappers_sizes_agree :
+    sizeKind mi_pysizes "N" = some ("arr", "anomaly.1", 0, 0)
+    ∧ sizeKind mi_pysizes "n_samples" = some ("arr", "anomaly.0", 0, 1)
+    ∧ sizeKind spearman_pysizes "m" = some ("arr", "anomaly.0", 1, 0)
+    ∧ sizeKind spearman_pysizes "tmax" = some ("arr", "anomaly.1", 1, 1)
+    ∧ (0, 1) ∈ spearman_pychecks
+    ∧ sizeKind pearson_pysizes "N" = some ("arr", "original_data.0", 0, 0)
+    ∧ sizeKind pearson_pysizes "n_time" = some ("arr", "original_data.1", 0, 1)
+    ∧ (1, 0) ∈ pearson_pychecks
+    ∧ sizeKind tmi_pysizes "N" = some ("arr", "original_data.0", 0, 0)
+    ∧ sizeKind tmi_pysizes "n_time" = some ("arr", "original_data.1", 0, 1)
+    ∧ (1, 0) ∈ tmi_pychecks
+    ∧ sizeKind vcfb_pysizes "N" = some ("self", "N", 0, 0)
+    ∧ sizeKind ecfb_pysizes "N" = some ("self", "N", 0, 0)
+    ∧ vcfb_cychecks = [("admittance", 0, "N"), ("admittance", 1, "N"), ("R", 0, "N"), ("R", 1, "N")]
+    ∧ ecfb_cychecks = [("admittance", 0, "N"), ("admittance", 1, "N"), ("R", 0, "N"), ("R", 1, "N")] := by
+  refine ⟨by decide, by decide, by decide, by decide, by decide, by decide, by decide, by decide,
+    by decide, by decide, by decide, by decide, by decide, by decide, by decide⟩
+
+/-- the public methods that reach the worker (`calculate_similarity_measure`,
+`mutual_information`) pass the array only, so `n_bins` is the default of the signature, which is a
+valid bin count (this is why the `n_bins = 0` hole of the private worker is not public) -/
+theorem mi_public_nbins :
+    mi_forwarders = [("calculate_similarity_measure", 1), ("mutual_information", 1)]
+    ∧ mi_int_defaults = [("n_bins", 32)] := by decide
+
+/-- `MutualInfoClimateNetwork.calculate_similarity_measure(anomaly)` /
+`mutual_information(anomaly=…)` on an object with **any** number of nodes `self.N = objN`, for an
+anomaly array of **any** shape: safe or raises — because the sizes handed to the kernel are read
+off the generated table `mi_pysizes` and are those of the array itself.  (Hypotheses as in
+`miCall_rejects_or_safe`; discharged in `miObjWrapperCall_rejects_or_safe`.) -/
+theorem miObjCall_rejects_or_safe (objN N T : Nat) (nb : Int) (zdiv : Bool)
+    (scaling rmin : Option Rat) (d : Data) (hnb : 1 ≤ nb)
+    (hpos : ∀ i k sv mv v, scaling = some sv → rmin = some mv → d.at i k = some v →
+      0 ≤ sv * (v - mv)) :
+    miObjCall mi_pysizes objN N T nb zdiv scaling rmin d ≠ .oob := by
+  have h1 : resolveSize mi_pysizes "N" [[N, T]] objN = some N := by
+    simp [resolveSize, mi_pysizes]
+  have h2 : resolveSize mi_pysizes "n_samples" [[N, T]] objN = some T := by
+    simp [resolveSize, mi_pysizes]
+  unfold miObjCall
+  rw [h1, h2]
+  simp only [and_self, if_true]
+  exact miCall_rejects_or_safe N T nb zdiv scaling rmin d hnb hpos
+
+/-- the same from the normalised float64 array down to the kernel, no hypothesis on the data left:
+every array (NaN included), every monotone conversion double → float, every non-negative (or NaN /
+infinite) `float scaling`, every `self.N` -/
+theorem miObjWrapperCall_rejects_or_safe (rnd : Rat → Rat) (hmono : ∀ x y, x ≤ y → rnd x ≤ rnd y)
+    (objN N T : Nat) (nb : Int) (hnb : 1 ≤ nb) (sc : Option Rat) (hsc : ∀ s, sc = some s → 0 ≤ s)
+    (a : Data) : miObjWrapperCall rnd mi_pysizes objN N T nb sc a ≠ .oob := by
+  unfold miObjWrapperCall
+  apply miObjCall_rejects_or_safe _ _ _ _ _ _ _ _ hnb
+  intro i k sv mv v hs hm hv
+  rw [Data.at_map a (fun x => x.map rnd) rfl] at hv
+  cases hmin : optMin a.flat with
+  | none => simp [hmin] at hm
+  | some mn =>
+    cases hmax : optMax a.flat with
+    | none => simp [hmin, hmax] at hs
+    | some mx =>
+      simp only [hmin, hmax] at hs
+      simp only [hmin, Option.map_some, Option.some.injEq] at hm
+      cases hw : a.at i k with
+      | none => simp [hw] at hv
+      | some w =>
+        simp only [hw, Option.map_some, Option.some.injEq] at hv
+        obtain ⟨w', hw', hle⟩ := optMin_le _ mn hmin _ (Data.at_mem_flat a i k w hw)
+        cases hw'
+        subst hm; subst hv
+        have h1 : 0 ≤ rnd w - rnd mn := by
+          have := hmono mn w hle
+          grind
+        exact Rat.mul_nonneg (hsc sv hs) h1
+
+example : miObjWrapperCall id mi_pysizes 6 2 2 32 (some (1/2)) [[some 0, some 2], [some 1, some 2]]
+    = .safe := by decide +kernel
+example : miObjWrapperCall id mi_pysizes 1 2 2 32 (some 1) [[some 1, some 1], [some 1, some 1]]
+    = .raise := by decide +kernel
+
+/-- a method that passed `self.N` instead (the shape of seeded change C20-6): with an anomaly of
+fewer columns than the object has nodes the kernel reads past the array; with more columns it stays
+inside (and returns a matrix of the wrong size); with the object's own size nothing changes — which
+is why no existing test notices -/
+theorem miObjCall_selfN_oob_witness :
+    let rows : List SizeRow := [("n_samples", "arr", "anomaly.0", 0, 1), ("N", "self", "N", 0, 0)]
+    miObjCall rows 6 1 2 32 false (some (1/2)) (some 0) [[some 0, some 2]] = .oob
+    ∧ miObjCall rows 1 2 2 32 false (some (1/2)) (some 0) [[some 0, some 2], [some 1, some 2]] = .safe
+    ∧ miObjCall rows 2 2 2 32 false (some (1/2)) (some 0) [[some 0, some 2], [some 1, some 2]] = .safe := by
+  decide +kernel
 
 end Pyunicorn.Access
